@@ -1,14 +1,17 @@
 #!/bin/bash
-# confirm_seed.sh <id>  : verifies a seeded change in /tmp/wt_<id> (change + tests/seed_demo.rs in place)
+# confirm_seed.sh <id>  : verifies a seeded change delivered in /tmp/seed_<id> (patch.diff, demo.rs) inside the
+# scratch worktree /tmp/wt_<id>.  The worktree is reset first (no git stash: stashes are shared between worktrees,
+# parallel confirmations would mix them up).
 id=$1; wt=/tmp/wt_$id; sd=/tmp/seed_$id
 cd $wt || exit 2
 export CARGO_TARGET_DIR=$wt/target
-echo "== $id: patch applies on clean checkout?"; git stash -q -u; git apply --check $sd/patch.diff && echo "applies: yes"; git stash pop -q
+git checkout -q -- . ; rm -f tests/seed_demo.rs
+echo "== $id: patch applies on clean checkout?"; git apply --check $sd/patch.diff && echo "applies: yes" || exit 1
+git apply $sd/patch.diff
 echo "== existing suite with change (demo excluded)"
-mv tests/seed_demo.rs /tmp/seed_demo_$id.rs
-cargo test --offline --workspace 2>&1 | grep -E "^test result|FAILED|error" | sort | uniq -c | head -5
-mv /tmp/seed_demo_$id.rs tests/seed_demo.rs
+cargo test --offline --workspace --no-fail-fast 2>&1 | grep -E "^test result|FAILED|^error" | sort | uniq -c | head -8
+cp $sd/demo.rs tests/seed_demo.rs
 echo "== demo with change (expect failure)"
-cargo test --offline --test seed_demo 2>&1 | grep -E "^test result|^test .* (ok|FAILED)" | head -8
+cargo test --offline --test seed_demo 2>&1 | grep -E "^test result|^test .* (ok|FAILED)|^error" | head -8
 echo "== demo without change (expect pass)"
-git apply -R $sd/patch.diff && cargo test --offline --test seed_demo 2>&1 | grep -E "^test result|^test .* (ok|FAILED)" | head -8; git apply $sd/patch.diff
+git apply -R $sd/patch.diff && cargo test --offline --test seed_demo 2>&1 | grep -E "^test result|^test .* (ok|FAILED)|^error" | head -8; git apply $sd/patch.diff
